@@ -201,6 +201,14 @@ pub fn transforms(nodes: &[Node], fragmented: bool) -> Vec<(String, Vec<Node>)> 
         }
         out.push(("64-bit header on every box".into(), t));
     }
+    // 3b. the last top-level box declares size 0 ("extends to the end of the file")
+    if let Some(last) = nodes.last() {
+        if !last.open_ended && (&last.cc == b"mdat" || &last.cc == b"free" || &last.cc == b"skip") {
+            let mut t = nodes.to_vec();
+            t.last_mut().unwrap().open_ended = true;
+            out.push((format!("last top-level box ({}) written with size 0", last.name()), t));
+        }
+    }
     // 4. spare bytes after the last field
     for p in paths.iter() {
         let n = node_at(nodes, p);
